@@ -907,6 +907,31 @@ static void usage(void)
             "  [--max-cases N]\n");
 }
 
+/* CPU seconds (user+system, all threads) consumed by a process, -1 when unknown */
+static double proc_cpu_s(pid_t pid)
+{
+    char path[64], buf[1024], *p;
+    unsigned long ut = 0, stt = 0;
+    int fd, r, k;
+    snprintf(path, sizeof(path), "/proc/%d/stat", (int)pid);
+    fd = open(path, O_RDONLY);
+    if (fd < 0) return -1;
+    r = (int)read(fd, buf, sizeof(buf) - 1);
+    close(fd);
+    if (r <= 0) return -1;
+    buf[r] = 0;
+    p = strrchr(buf, ')');              /* the command name may contain spaces */
+    if (p == NULL) return -1;
+    p++;
+    for (k = 0; k < 11 && p != NULL; k++) p = strchr(p + 1, ' ');    /* fields 3..13 */
+    if (p == NULL || sscanf(p, " %lu %lu", &ut, &stt) != 2) return -1;
+    return (double)(ut + stt) / (double)sysconf(_SC_CLK_TCK);
+}
+static pid_t hang_pid[MAXW], hang_killed[MAXW];
+static uint64_t hang_nops[MAXW];
+static int64_t hang_case[MAXW];
+static double hang_cpu0[MAXW], hang_scan;
+
 int vrt_main(int argc, char **argv, const struct vrt_harness *h)
 {
     int W = h->workers > 0 ? h->workers : 16, i, alive = 0, deaths = 0, inconclusive = 0;
@@ -984,6 +1009,25 @@ int vrt_main(int argc, char **argv, const struct vrt_harness *h)
         pid_t pid = waitpid(-1, &st, WNOHANG);
         if (pid == 0) {
             struct timespec ts = { 0, 5000000 };
+            /* supervisor-side CPU-time hang detector: the in-worker one relies on SIGVTALRM reaching a thread that
+             * runs its handler, which TSan defers forever in a worker whose main thread sits in pthread_join while
+             * another thread spins.  Same measure: CPU time consumed (utime+stime of the worker, all threads) with
+             * no new operation started; 240 s here, so the in-worker detector (120 s) wins where it works. */
+            if (now_s() - hang_scan > 5 && strcmp(vrt_config, "rel-plain") != 0 && getenv("VERIF_NO_HANG_DETECTOR") == NULL) {
+                hang_scan = now_s();
+                for (i = 0; i < W; i++) if (G->slot[i].pid > 0 && G->slot[i].cur_case >= 0) {
+                    const double cpu = proc_cpu_s(G->slot[i].pid);
+                    if (cpu < 0) continue;
+                    if (hang_pid[i] != G->slot[i].pid || hang_nops[i] != G->slot[i].nops || hang_case[i] != G->slot[i].cur_case) {
+                        hang_pid[i] = G->slot[i].pid; hang_nops[i] = G->slot[i].nops; hang_case[i] = G->slot[i].cur_case; hang_cpu0[i] = cpu;
+                    } else if (cpu - hang_cpu0[i] > 240) {
+                        fprintf(stderr, "hang: worker %d used %.0f s of CPU in case %lld entry %s without starting a new operation; killed\n",
+                                i, cpu - hang_cpu0[i], (long long)G->slot[i].cur_case, G->slot[i].entry ? G->slot[i].entry : "?");
+                        hang_killed[i] = G->slot[i].pid;
+                        kill(G->slot[i].pid, SIGKILL);
+                    }
+                }
+            }
             if (now_s() - t0 > watchdog) {
                 inconclusive = 1;
                 snprintf(inconc_msg, sizeof(inconc_msg), "watchdog (%.0f s) fired; workers killed", watchdog);
@@ -1028,6 +1072,7 @@ int vrt_main(int argc, char **argv, const struct vrt_harness *h)
             snprintf(path, sizeof(path), "%s/w%d.%d.err", outdir, i, s->gen);
             read_head(path, errtxt, 65536);
             classify_death(st, errtxt, kind, sizeof(kind));
+            if (hang_killed[i] == pid) snprintf(kind, sizeof(kind), "hang.cpu-120s-in-one-call");
             if (was_finished)
                 /* the cases completed; a tool (memcheck --error-exitcode, TSan) made the exit status non-zero:
                  * its report is on the harness's stderr, the entry point is not known */
